@@ -96,6 +96,29 @@ func SimC02(c *CheckCtx, i int, r *Rng) error {
 		m, names, gens = smallWorldOf(r, base, many, 1, 2, 2)
 		c.Env.Stats.Add("probe/many-generators-world", 1)
 	}
+	bulk, bulkGen := false, ""
+	if !real && i%6 == 5 {
+		// one generator renders a table of a few MiB for one package: output far beyond any size at which
+		// an implementation might switch to another way of checking, formatting or writing it
+		for gi := range gens {
+			if !isScripted(&gens[gi]) {
+				continue
+			}
+			key := m.ImportPath(0) + " " + m.Pkgs[0].Anchor
+			rules := map[string]proto.Rule{}
+			for k, v := range gens[gi].Rules {
+				rules[k] = v
+			}
+			rule := rules[key]
+			rule.Ret = ""
+			rule.Render = append(append([]proto.Part{}, rule.Render...), proto.Part{Text: "Bulk_" + sanitize(gens[gi].Name), Bulk: r.Range(2200, 3200)})
+			rules[key] = rule
+			gens[gi].Rules = rules
+			bulk, bulkGen = true, gens[gi].Name
+			break
+		}
+		c.Env.Stats.Add("probe/multi-megabyte-output-world", 1)
+	}
 	if real {
 		// crash consistency of the files of the real runtimedoc/deepcopy/defaulter generators
 		m, names = DrawRealModule(r, 1)
@@ -187,6 +210,16 @@ func SimC02(c *CheckCtx, i int, r *Rng) error {
 
 	// 2. enumerate failure points
 	var points []failurePoint
+	if bulk {
+		// the callback that renders the table also renders something broken after it
+		for _, e := range evs {
+			if e.Kind == "gen" && e.Pkg == m.ImportPath(0) && e.Type == m.Pkgs[0].Anchor && e.Gen == bulkGen {
+				points = append(points, failurePoint{name: fmt.Sprintf("unparseable@bulk/%s/%s.%s", e.Gen, e.Pkg, e.Type),
+					fault: proto.Fault{ExecSeq: -1, Kind: e.Kind, Gen: e.Gen, Pkg: e.Pkg, Type: e.Type, Nth: 0, Do: "gen-unparseable"}})
+				break
+			}
+		}
+	}
 	seenUnparse := map[string]bool{}
 	for _, e := range evs {
 		switch e.Kind {
@@ -282,6 +315,9 @@ func SimC02(c *CheckCtx, i int, r *Rng) error {
 	for k := len(rest) - 1; k > 0; k-- {
 		j := r.Intn(k + 1)
 		rest[k], rest[j] = rest[j], rest[k]
+	}
+	if bulk && len(points) > nGen+12 {
+		points = points[:nGen+12] // (every run formats megabytes)
 	}
 	c.Env.Stats.Add("failure-points-enumerated", int64(len(points)))
 
